@@ -161,18 +161,37 @@ fn streamed(ctx: &mut Ctx, name: &str, x: &[u8], codec: u8, chunks: &Sched, unde
         out.c.wsched = under.clone();
         out.pend = Pend::Random(Rng::new(rng.next()), 1, 3);
         let mut sch = chunks.clone();
+        // every third stream goes into a sink that buffers internally: closing the adapter must push everything
+        // down to the final destination (AsyncWrite::close flushes), not just into the nearest buffer
+        let buffered = (hash_bytes(x) ^ rng.next()) % 3 == 0;
+        let cap = *rng.pick(&[1usize, 16, 4096, 1 << 20]);
         let r = guard(|| {
             block_on(async {
-                let mut w = compress_async(comp, &mut out)?;
-                let mut at = 0usize;
-                while at < x.len() {
-                    let n = next_chunk(&mut sch, x.len() - at);
-                    w.write_all(&x[at..at + n]).await?;
-                    at += n;
+                if buffered {
+                    let mut bw = futures::io::BufWriter::with_capacity(cap, &mut out);
+                    let mut w = compress_async(comp, &mut bw)?;
+                    let mut at = 0usize;
+                    while at < x.len() {
+                        let n = next_chunk(&mut sch, x.len() - at);
+                        w.write_all(&x[at..at + n]).await?;
+                        at += n;
+                    }
+                    w.close().await
+                } else {
+                    let mut w = compress_async(comp, &mut out)?;
+                    let mut at = 0usize;
+                    while at < x.len() {
+                        let n = next_chunk(&mut sch, x.len() - at);
+                        w.write_all(&x[at..at + n]).await?;
+                        at += n;
+                    }
+                    w.close().await
                 }
-                w.close().await
             })
         });
+        if buffered {
+            ctx.count("async_streams_into_buffering_sink");
+        }
         match r {
             Ok(Ok(())) => out.c.data,
             Ok(Err(e)) => {
@@ -188,7 +207,25 @@ fn streamed(ctx: &mut Ctx, name: &str, x: &[u8], codec: u8, chunks: &Sched, unde
         let mut out = Inst::new(Vec::new());
         out.c.wsched = under.clone();
         let mut sch = chunks.clone();
+        let buffered = (hash_bytes(x) ^ rng.next()) % 3 == 0;
+        let cap = *rng.pick(&[1usize, 16, 4096, 1 << 20]);
         let r = guard(|| -> std::io::Result<()> {
+            if buffered {
+                // a std BufWriter between the adapter and the destination; the caller flushes it after dropping the adapter
+                let mut bw = std::io::BufWriter::with_capacity(cap, &mut out);
+                {
+                    let mut w = compress(comp, &mut bw)?;
+                    let mut at = 0usize;
+                    while at < x.len() {
+                        let n = next_chunk(&mut sch, x.len() - at);
+                        w.write_all(&x[at..at + n])?;
+                        at += n;
+                    }
+                    w.flush()?;
+                }
+                bw.flush()?;
+                return Ok(());
+            }
             let mut w = compress(comp, &mut out)?;
             let mut at = 0usize;
             while at < x.len() {
@@ -200,6 +237,9 @@ fn streamed(ctx: &mut Ctx, name: &str, x: &[u8], codec: u8, chunks: &Sched, unde
             drop(w);
             Ok(())
         });
+        if buffered {
+            ctx.count("sync_streams_into_buffering_sink");
+        }
         match r {
             Ok(Ok(())) => out.c.data,
             Ok(Err(e)) => {
